@@ -74,6 +74,16 @@ def stratum_cases():
         for ename, e in (('sqrt', [0, 1, F(1, 2)]), ('cube root', [0, 1, F(1, 3)])):
             cases.append({'kind': 'stratum', 'tree': uc.tree_json([6, o, e]), 'evaluate': False,
                           'name': '%s(%s)' % (ename, oname)})
+    # variables whose initial value is exactly 0 (kept symbolic by the unchanged code) as divisors, under negative
+    # powers and as the differentiation variable; every unit
+    for u in (0, 2, 4, 5, 13):
+        z, p, a = [3, 3 * u + 2], [3, 3 * u + 1], [3, 3 * u]
+        for name, t in (('1/z', inv(z)), ('p/z', [5, p, inv(z)]), ('z**-2', [6, z, [0, 0, F(-2)]]),
+                        ('z**-0.5', [6, z, [0, 1, F(-1, 2)]]), ('(p - z)/z', [5, [4, p, [5, [0, 0, F(-1)], z]], inv(z)]),
+                        ('a/(z*z)', [5, a, inv([5, z, z])]), ('d a/d z', [8, a, z, 1]), ('d p/d z', [8, p, z, 1]),
+                        ('d z/d z', [8, z, z, 1]), ('Abs(p)/Abs(z)', [5, [7, 2, p], inv([7, 2, z])])):
+            cases.append({'kind': 'stratum', 'tree': uc.tree_json(t), 'evaluate': False,
+                          'name': '%s, z in unit %d with initial value 0' % (name, u)})
     return cases
 
 
@@ -287,10 +297,12 @@ def evaluate(ctx, cases, results, use_model=True):
         impl = r['impl']
         kind = '%s:%s' % (c['kind'], impl[0] if impl[0] == 'ok' else impl[1])
         ctx.count(case_key=r['eff'], nontrivial=uc.depth(eff) >= 3, kind=kind)
+        mtag = mods[i][0] if mods is not None else None       # 0 unit, 1 UnitError, 2 other exception, 3 declined
         for what, text in r['findings']:
             ctx.violation('C04 %s: %s' % (what, text),
                           {'tree': r['eff'], 'name': c.get('name'), 'kind': c['kind'], 'impl': impl,
-                           'detail': {'kind': what, 'causes': r['causes'], 'err': impl[1] if impl[0] == 'err' else None}})
+                           'detail': {'kind': what, 'causes': r['causes'], 'err': impl[1] if impl[0] == 'err' else None,
+                                      'model': mtag}})
         if mods is not None:
             ctx.corr_cases += 1
             m = mods[i]
@@ -353,10 +365,15 @@ def unchecked_condition(case):
 
 
 def magnitude_exception(case):
-    """traverse does float arithmetic on magnitudes (initial values, quantities): ZeroDivisionError, OverflowError,
-    TypeError (complex) escape"""
-    return _d(case).get('kind') == 'exception' and _d(case).get('err') in ('ZeroDivisionError', 'Other:OverflowError',
-                                                                           'TypeError')
+    """traverse does float arithmetic on magnitudes (non-zero initial values, quantities): ZeroDivisionError, OverflowError,
+    TypeError (complex) escape.  Only where the MODEL of the unchanged code raises too (infer answers "other exception"),
+    or declines because a complex magnitude arises (TypeError only): the same exception on an input where the model
+    returns a unit or a UnitError is a new violation."""
+    d = _d(case)
+    if d.get('kind') != 'exception':
+        return False
+    return (d.get('model') == 2 and d.get('err') in ('ZeroDivisionError', 'Other:OverflowError', 'TypeError')) or \
+        (d.get('model') == 3 and d.get('err') == 'TypeError')
 
 
 # repaired in /repo (fix: commits, see build/fixes): F6 compound exponents, scaled dimensionless arguments
